@@ -210,7 +210,8 @@ chk("C11", "static analysis: MaybeUninit init-typestate (path coverage on the pr
     "same generated function and count identically; while the closure body of map_! runs the element is an ordinary owned local "
     "(ManuallyDrop::into_inner dominates all caller code of the round, 8 witnesses incl. `|ref x|` with early exits: ELEM-OWNED); an array "
     "operand that borrows from its own temporaries must compile, as it does with <[T; N]>::map (ACC-TEMP); which elements collect_const! "
-    "collects, and in which order, is the iterator DSL's expansion, decided here as well with C10's chain validation on its standard chain set (TV).",
+    "collects, and in which order, is the iterator DSL's expansion, decided here as well with C10's chain validation on its standard chain set (TV); "
+    "map!/map_!/from_fn!/from_fn_! accept the closure-parameter patterns the std functions accept (ACC-PARAM).",
     "Trusted: rustc MIR and macro expansion; macro hygiene keeps the counter/array unnameable from user tokens. Values "
     "computed by user closures are opaque (marker functions).")
 chk("C15", "static analysis: linear-use analysis of macro expansions in a witness crate (MIR), container read/advance/drop-range rules and field-writer invariants",
@@ -258,7 +259,8 @@ chk("C10", "static analysis: translation validation of macro expansions - per-it
     "its direction after rev, and of the 13 consumers); for flat_map/flatten the outer and the inner loop are extracted "
     "separately (state symbol by state symbol: which loop carries what, entry values of the inner loop, exits, back edges to "
     "either header) and compared with the two-phase schema. The direction rule reports positional adapters before a reversing "
-    "method (12 (adapter,reverser) pairs, a design limitation recorded as known findings).",
+    "method (12 (adapter,reverser) pairs, a design limitation recorded as known findings). The closure-taking methods must accept "
+    "the irrefutable parameter patterns a closure may have (11 methods x 8 pattern shapes as accept programs: ACC-PARAM).",
     "Trusted: rustc expansion/MIR; the written equivalence between the pull-based schema and std for side-effect-free "
     "sources (DESIGN.md App. A). At most one flat_map/flatten per chain; collect_const is outside the composer (INIT for "
     "collect_const is C11); chains whose counter is never carried round a loop are skipped and counted (TV-SKIP). NEST2: in chains with two flattening steps every way out of a loop level continues in the level "
